@@ -1,29 +1,155 @@
 """Failing-input search, run when a proof obligation or the correspondence no longer checks
-(DESIGN §5): evaluate the property's oracles on a larger, differently seeded scenario set and,
-for whole-run disagreements, on the disagreeing scenario itself."""
+(DESIGN §5).
+
+Three stages, stopping at the first that yields a violation of the *property* on the
+implementation:
+
+1. *directed*: for every process whose correspondence broke, scenarios drawn from strata that
+   exercise that process's rarely taken branches (`TARGET_STRATA`: which configuration features
+   make the process do something other than its default path — bunds that come and go, ponding,
+   net irrigation on layered soils, dry seed beds, harvest dates that bind, moving water tables,
+   several seasons at high CO2 …), evaluated with the property's trace oracles;
+2. *broad*: the generic stratified generator under two further seeds;
+3. the property's differential oracle under another seed.
+"""
+import numpy as np
 from . import collect, scen as scen_mod
+
+DRY = {"wc_type": "Pct", "method": "Layer", "depth_layer": [1], "value": [10.0]}
+DRY2 = {"wc_type": "Pct", "method": "Layer", "depth_layer": [1, 2], "value": [20.0, 20.0]}
+SAT = {"wc_type": "Prop", "method": "Layer", "depth_layer": [1], "value": ["SAT"]}
+
+_POND = [
+    dict(fm="bunds", ffm="none", soil="Clay", soil_kind="builtin", synth=True, regime="storm", off_season=True,
+         n_seasons=2, start_mode="before"),
+    dict(fm="none", ffm="bunds", soil="Clay", soil_kind="builtin", synth=True, regime="storm", off_season=True,
+         n_seasons=2, start_mode="before"),
+    dict(crop="PaddyRice", station="hyderabad_climate.txt", fm="bunds", ffm="none", soil="Paddy", soil_kind="builtin",
+         irr_method=5, off_season=True, n_seasons=2, start_mode="before"),
+    dict(fm="bunds", soil="SiltClay", soil_kind="builtin", irr_method=2, synth=True, regime="storm", n_seasons=1),
+    dict(fm="mix", soil_kind="custom", restrictive=True, synth=True, regime="storm", off_season=True, n_seasons=2),
+]
+_NETIRR = [
+    dict(irr_method=4, fm="bunds", soil="Paddy", soil_kind="builtin", crop="PaddyRice", station="hyderabad_climate.txt"),
+    dict(irr_method=4, fm="bunds", soil="Clay", soil_kind="builtin", synth=True, regime="storm"),
+    dict(irr_method=4, soil_kind="custom", layers=scen_mod.CUSTOM_LAYERS[4], crop="Cotton", iwc=DRY2, n_seasons=2,
+         off_season=False, start_mode="at"),
+    dict(irr_method=4, soil_kind="custom", layers=scen_mod.CUSTOM_LAYERS[1], crop="Maize", iwc=DRY2, n_seasons=2),
+    dict(irr_method=4, soil="ac_TunisLocal", soil_kind="builtin", crop="Wheat", station="tunis_climate.txt", n_seasons=2),
+    dict(irr_method=4, gw=True, n_seasons=2, off_season=False),
+]
+_STRESS = [
+    dict(crop="Cotton", station="tunis_climate.txt", irr_method=1, soil="Clay", soil_kind="builtin", n_seasons=2),
+    dict(crop="CottonGDD", station="tunis_climate.txt", irr_method=1, soil="Clay", soil_kind="builtin", n_seasons=2),
+    dict(crop="Tomato", irr_method=1, soil="ClayLoam", soil_kind="builtin", synth=True, regime="hot"),
+    dict(crop="Quinoa", irr_method=0, synth=True, regime="drought", iwc=DRY),
+    dict(crop="Sunflower", irr_method=1, synth=True, regime="cold"),
+    dict(crop="Soybean", irr_method=3, synth=True, regime="hot", soil="SandyClay", soil_kind="builtin"),
+]
+_DRYBED = [
+    dict(crop="Maize", station="champion_climate.txt", irr_method=1, soil="SiltLoam", soil_kind="builtin", iwc=DRY,
+         start_mode="at", n_seasons=1),
+    dict(crop="MaizeGDD", station="champion_climate.txt", irr_method=1, iwc=DRY, start_mode="at", n_seasons=2),
+    dict(crop="Wheat", station="tunis_climate.txt", irr_method=1, iwc=DRY, synth=True, regime="drought", start_mode="at"),
+    dict(irr_method=1, iwc=DRY, start_mode="at"),
+    dict(irr_method=2, iwc=DRY, start_mode="at"),
+]
+_CLOCK = [
+    dict(harvest_early=True, off_season=False, n_seasons=3, start_mode="at"),
+    dict(harvest_early=True, off_season=True, n_seasons=2, start_mode="before"),
+    dict(harvest_early=True, off_season=False, n_seasons=2, start_mode="after"),
+    dict(crop="MaizeGDD", synth=True, regime="cold", n_seasons=2, off_season=False),
+    dict(crop="Wheat", station="tunis_climate.txt", planting="10/01", harvest_early=True, n_seasons=3, off_season=False),
+]
+_SOIL = [
+    dict(soil_kind="custom", layers=scen_mod.CUSTOM_LAYERS[5], crop="Maize"),
+    dict(soil_kind="custom", layers=scen_mod.CUSTOM_LAYERS[4], crop="Cotton"),
+    dict(soil_kind="custom", restrictive=True, crop="Sorghum"),
+    dict(soil="Paddy", soil_kind="builtin", crop="Maize"),
+    dict(soil="ac_TunisLocal", soil_kind="builtin", crop="Wheat"),
+]
+_GW = [
+    dict(gw=True, soil_kind="custom", n_seasons=2, off_season=True),
+    dict(gw=True, soil="Paddy", soil_kind="builtin", n_seasons=2),
+    dict(gw=True, irr_method=4, n_seasons=2, off_season=False),
+    dict(gw=True, crop="Maize", soil="Clay", soil_kind="builtin", iwc=SAT),
+]
+_SEASONS = [
+    dict(n_seasons=3, off_season=False, start_mode="at"),
+    dict(n_seasons=3, off_season=False, start_mode="before", crop="MaizeGDD", station="champion_climate.txt"),
+    dict(n_seasons=3, off_season=False, irr_method=4, iwc=DRY),
+    dict(n_seasons=2, off_season=False, fm="bunds", soil="Paddy", soil_kind="builtin"),
+]
+
+TARGET_STRATA = {
+    "infiltration": _POND, "rainfall_partition": _POND + [dict(fm="cnadj", synth=True, regime="storm", iwc=SAT)],
+    "drainage": _POND + _SOIL, "transpiration": _NETIRR + _POND, "aeration_stress": _POND + _NETIRR,
+    "soil_evaporation": _POND + [dict(fm="mulch", irr_method=1), dict(fm="mix", irr_method=3)],
+    "evap_layer_water_content": _SOIL, "irrigation": _DRYBED + _NETIRR, "pre_irrigation": _NETIRR + _SEASONS,
+    "root_zone_water": _SOIL + _NETIRR, "water_stress": _STRESS, "growth_stage": _DRYBED,
+    "germination": _DRYBED, "harvest_index": _STRESS, "HIref_current_day": _STRESS + _CLOCK,
+    "biomass_accumulation": _STRESS, "canopy_cover": _STRESS + _DRYBED, "root_development": _SOIL + _GW,
+    "temperature_stress": _STRESS, "growing_degree_day": _STRESS,
+    "check_groundwater_table": _GW, "capillary_rise": _GW, "groundwater_inflow": _GW,
+    "clock": _CLOCK, "solution_single_time_step": _CLOCK + _POND + _NETIRR,
+    "reset_initial_conditions": _SEASONS, "soil_profile": _SOIL, "init_wc": _SOIL + _GW,
+    "water_day": _POND + _NETIRR + _GW, "full_day": _POND + _NETIRR + _STRESS + _CLOCK,
+}
+
+
+def _eval(spec, scs):
+    from . import engine
+    data = collect.collect(scs, with_lines=False)
+    vs, _, _ = engine.oracle_stage(spec, data["records"])
+    by_id = {r.scen["id"]: r.scen for r in data["records"]}
+    for v in vs:
+        v["scenario"] = by_id.get(v.get("scen"))
+    return vs
+
+
+def directed_scenarios(processes, seed, per_stratum):
+    rng = np.random.default_rng(int(seed) * 31 + 17)
+    strata, seen = [], set()
+    for p in processes:
+        for st in TARGET_STRATA.get(p, []):
+            k = repr(sorted((a, repr(b)) for a, b in st.items()))
+            if k not in seen:
+                seen.add(k)
+                strata.append(st)
+    out = []
+    for i, st in enumerate(strata):
+        for j in range(per_stratum):
+            sc = scen_mod.gen_scenario(rng, 50000 + 100 * i + j, dict(st))
+            if sc.get("co2") is None and j % 2 == 1:
+                sc["co2"] = {"constant": True, "current": float(rng.choice([450, 600, 900]))}
+            out.append(sc)
+    return out
 
 
 def deep_search(pid, spec, seed, tier, disagreements, n=None):
-    from . import engine
     n = n or (40 if tier == "quick" else 200)
     found = []
-    info = dict(scenarios=0, seeds=[])
-    for k in range(2):
-        s = seed * 7919 + 104729 * (k + 1)
-        scs = scen_mod.gen_scenarios(s, n // 2)
-        data = collect.collect(scs, with_lines=False)
-        vs, _, _ = engine.oracle_stage(spec, data["records"])
-        by_id = {r.scen["id"]: r.scen for r in data["records"]}
-        for v in vs:
-            v["scenario"] = by_id.get(v.get("scen"))
-        info["scenarios"] += len(scs)
-        info["seeds"].append(s)
-        found += vs
-        if found:
-            break
+    info = dict(scenarios=0, seeds=[], stages=[])
+    procs = sorted({d.get("process") for d in (disagreements or []) if d.get("process")})
+    if procs and spec.oracles:
+        scs = directed_scenarios(procs, seed, 2 if tier == "quick" else 6)
+        if scs:
+            found += _eval(spec, scs)
+            info["scenarios"] += len(scs)
+            info["stages"].append(dict(stage="directed", processes=procs, scenarios=len(scs), found=len(found)))
+    if not found and spec.oracles:
+        for k in range(2):
+            s = seed * 7919 + 104729 * (k + 1)
+            scs = scen_mod.gen_scenarios(s, n // 2)
+            found += _eval(spec, scs)
+            info["scenarios"] += len(scs)
+            info["seeds"].append(s)
+            if found:
+                break
+        info["stages"].append(dict(stage="broad", found=len(found)))
     if spec.extra is not None and not found:
         ev, _ = spec.extra(dict(pid=pid, tier=tier, seed=seed + 1, data=None, records=None))
         found += ev
+        info["stages"].append(dict(stage="differential", found=len(ev)))
     info["violations_found"] = len(found)
     return found, info
